@@ -298,7 +298,9 @@ func (fr *frame) visitInstr(instr ssa.Instruction) continuation {
 		if p == nil {
 			i.rtPanic(fr, "invalid memory address or nil pointer dereference")
 		}
-		i.preempt(fr, "store")
+		if al, isAlloc := instr.Addr.(*ssa.Alloc); !(isAlloc && !al.Heap) {
+			i.preempt(fr, "store")
+		}
 		i.store(deref(instr.Addr.Type()), p, fr.get(instr.Val))
 
 	case *ssa.If:
